@@ -11,7 +11,7 @@ import (
 
 // specCmp is the component-wise path order: compare component by component, bytewise; a path that
 // ends at a component boundary of the other sorts first.
-func specCmp(p, q string) int {
+func vh_specCmp(p, q string) int {
 	i, j := 0, 0
 	for {
 		pe, qe := i, j
@@ -42,7 +42,7 @@ func specCmp(p, q string) int {
 	}
 }
 
-func sign(x int) int {
+func vh_sign(x int) int {
 	if x < 0 {
 		return -1
 	}
@@ -54,7 +54,7 @@ func sign(x int) int {
 
 // specWellFormed: a clean relative path that is neither "." nor ".." nor starts with "../":
 // non-empty, and every '/'-separated component is non-empty and neither "." nor "..".
-func specWellFormed(p string) bool {
+func vh_specWellFormed(p string) bool {
 	if len(p) == 0 {
 		return false
 	}
@@ -71,7 +71,7 @@ func specWellFormed(p string) bool {
 	return true
 }
 
-func specParent(p string) string {
+func vh_specParent(p string) string {
 	for i := len(p) - 1; i >= 0; i-- {
 		if p[i] == '/' {
 			return p[:i]
@@ -81,20 +81,20 @@ func specParent(p string) string {
 }
 
 // specValidator is the reference acceptor of C12.
-type specValidator struct {
+type vh_specValidator struct {
 	any  bool
 	last string
 	dirs []string
 }
 
-func (s *specValidator) accept(p string, isDir, isDelete bool) bool {
-	if !specWellFormed(p) {
+func (s *vh_specValidator) accept(p string, isDir, isDelete bool) bool {
+	if !vh_specWellFormed(p) {
 		return false
 	}
-	if s.any && specCmp(s.last, p) >= 0 {
+	if s.any && vh_specCmp(s.last, p) >= 0 {
 		return false
 	}
-	par := specParent(p)
+	par := vh_specParent(p)
 	if par != "" {
 		found := false
 		for _, d := range s.dirs {
@@ -113,7 +113,7 @@ func (s *specValidator) accept(p string, isDir, isDelete bool) bool {
 	return true
 }
 
-func statInfoFor(isDir bool) os.FileInfo {
+func vh_statInfoFor(isDir bool) os.FileInfo {
 	mode := uint32(0644)
 	if isDir {
 		mode = uint32(os.ModeDir) | 0755
@@ -128,12 +128,12 @@ func statInfoFor(isDir bool) os.FileInfo {
 func VH_C12_order() {
 	lp, lq := v.Param("LP", 2), v.Param("LQ", 2)
 	p, q := v.String("p", lp), v.String("q", lq)
-	got := sign(ComparePath(p, q))
-	want := specCmp(p, q)
+	got := vh_sign(ComparePath(p, q))
+	want := vh_specCmp(p, q)
 	v.Observe("got", got)
 	v.Assert(got == want, "ComparePath sign equals component-wise order")
 	v.Assert((got == 0) == (p == q), "ComparePath is zero exactly on equal paths")
-	v.Assert(sign(ComparePath(q, p)) == -got, "ComparePath antisymmetric")
+	v.Assert(vh_sign(ComparePath(q, p)) == -got, "ComparePath antisymmetric")
 	v.Cover("done")
 }
 
@@ -142,13 +142,13 @@ func VH_C12_trans() {
 	n := v.Param("N", 2)
 	a, b, c := v.String("a", v.Choose("la", n+1)), v.String("b", v.Choose("lb", n+1)), v.String("c", v.Choose("lc", n+1))
 	ab, bc, ac := ComparePath(a, b), ComparePath(b, c), ComparePath(a, c)
-	v.Observe("ab", sign(ab))
+	v.Observe("ab", vh_sign(ab))
 	if ab < 0 && bc < 0 {
 		v.Cover("chain")
 		v.Assert(ac < 0, "ComparePath transitive")
 	}
 	if ab == 0 {
-		v.Assert(sign(bc) == sign(ac), "ComparePath respects equality")
+		v.Assert(vh_sign(bc) == vh_sign(ac), "ComparePath respects equality")
 	}
 }
 
@@ -158,7 +158,7 @@ func VH_C12_trans() {
 func VH_C12_seq() {
 	k, n := v.Param("K", 2), v.Param("N", 2)
 	var val Validator
-	var spec specValidator
+	var spec vh_specValidator
 	for i := 0; i < k; i++ {
 		p := v.String("p", v.Choose("len", n+1))
 		isDir := v.Bool("dir")
@@ -167,7 +167,7 @@ func VH_C12_seq() {
 		if isDelete {
 			kind = ChangeKindDelete
 		}
-		err := val.HandleChange(kind, p, statInfoFor(isDir), nil)
+		err := val.HandleChange(kind, p, vh_statInfoFor(isDir), nil)
 		want := spec.accept(p, isDir, isDelete)
 		v.Observe("accepted", err == nil)
 		if want {
@@ -196,14 +196,14 @@ func VH_C12_deep() {
 	maxd, k := v.Param("MAXD", 12), v.Param("K", 3)
 	depth := 1 + v.Choose("depth", maxd)
 	var val Validator
-	var spec specValidator
+	var spec vh_specValidator
 	prefix := ""
 	for i := 0; i < depth; i++ {
 		if i > 0 {
 			prefix += "/"
 		}
 		prefix += "d"
-		err := val.HandleChange(ChangeKindAdd, prefix, statInfoFor(true), nil)
+		err := val.HandleChange(ChangeKindAdd, prefix, vh_statInfoFor(true), nil)
 		v.Assert(err == nil && spec.accept(prefix, true, false), "a chain of nested directories is accepted")
 		if err != nil {
 			return
@@ -217,7 +217,7 @@ func VH_C12_deep() {
 		}
 		p := base + "/" + v.String("name", 1)
 		isDir := v.Bool("dir")
-		err := val.HandleChange(ChangeKindAdd, p, statInfoFor(isDir), nil)
+		err := val.HandleChange(ChangeKindAdd, p, vh_statInfoFor(isDir), nil)
 		want := spec.accept(p, isDir, false)
 		v.Observe("accepted", err == nil)
 		if want {
